@@ -51,8 +51,10 @@ def extra_cpp(stack, nested=False):
         # reported as not observable (`?`) instead of failing to compile -- the property speaks of the owning side only
         mem = sorted(set(re.findall(re.escape(view(i)) + r"\.(m_\w+)", b)))
         if mem:
-            req = " ".join(f"vb.{m};" for m in mem)     # a generic lambda makes the requires-expression dependent
-            v_stmts.append(f'  os << " ;"; [&](const auto & vb) {{ if constexpr (requires {{ {req} }}) {{ {b.replace(view(i) + ".", "vb.")} }} '
+            bb = b.replace(view(i) + ".", "vb.")
+            req = bb if bb.rstrip().endswith(";") else bb + ";"     # the statements themselves are the requirements (a member of
+            # another type is "not observable", too); a generic lambda makes the requires-expression dependent
+            v_stmts.append(f'  os << " ;"; [&](const auto & vb) {{ if constexpr (requires {{ {req} }}) {{ {bb} }} '
                            f'else os << " ?"; }}({view(i)});')
         else:
             v_stmts.append(f'  os << " ;"; {b}')
